@@ -58,7 +58,7 @@ def main(tier, replay=None):
     n_mon = 0
     with open(spec_in, "w") as f:
         for key, cl in case_by_key.items():
-            if key[0] in "SW" and key in impl:
+            if key[0] in "SW" and key in impl and "initial-state-unreachable" not in impl[key]:
                 f.write(cl + "\n" + impl[key] + "\n")
                 n_mon += 1
     spec_out = c.run_sharded([driver, "<"], spec_in, os.path.join(rd, "spec.out"), argv_suffix=["spec"], shards=1)
@@ -68,6 +68,8 @@ def main(tier, replay=None):
         if key[0] not in "SW":
             continue
         il = impl.get(key, "")
+        if "initial-state-unreachable" in il:
+            continue    # the harness could not build the initial fabric table: a correspondence difference
         v = spec.get(key, key + " missing").split(" ")
         verdict = v[2] if len(v) > 2 else "missing"
         names = []
